@@ -1840,6 +1840,34 @@ func (f *fn) sharedFields(scope string) []fieldRow {
 		sort.Strings(l)
 		return strings.Join(l, "+")
 	}
+	// accesses made through sync/atomic: &x.f as the first argument of atomic.LoadT / StoreT / AddT / ...
+	atomicRW := map[ast.Expr]string{}
+	atomicAddr := map[ast.Expr]bool{}
+	ast.Inspect(f.decl.Body, func(n ast.Node) bool {
+		c, ok := n.(*ast.CallExpr)
+		if !ok || len(c.Args) == 0 {
+			return true
+		}
+		sel, ok := unparen(c.Fun).(*ast.SelectorExpr)
+		if !ok {
+			return true
+		}
+		fo, _ := info.Uses[sel.Sel].(*types.Func)
+		if fo == nil || fo.Pkg() == nil || fo.Pkg().Path() != "sync/atomic" {
+			return true
+		}
+		u, ok := unparen(c.Args[0]).(*ast.UnaryExpr)
+		if !ok || u.Op != token.AND {
+			return true
+		}
+		rw := "W"
+		if strings.HasPrefix(fo.Name(), "Load") {
+			rw = "R"
+		}
+		atomicRW[unparen(u.X)] = rw
+		atomicAddr[u] = true
+		return true
+	})
 	writes := map[ast.Expr]bool{}
 	var markW func(e ast.Expr)
 	markW = func(e ast.Expr) {
@@ -1861,7 +1889,7 @@ func (f *fn) sharedFields(scope string) []fieldRow {
 		case *ast.IncDecStmt:
 			markW(x.X)
 		case *ast.UnaryExpr:
-			if x.Op == token.AND {
+			if x.Op == token.AND && !atomicAddr[x] {
 				markW(x.X)
 			}
 		case *ast.RangeStmt:
@@ -1914,7 +1942,16 @@ func (f *fn) sharedFields(scope string) []fieldRow {
 				fname += "[expr]"
 			}
 		}
-		row := fieldRow{fname, f.name, rw, held(sel.Pos()), scope}
+		mu := held(sel.Pos())
+		if arw, ok := atomicRW[sel]; ok {
+			rw = arw
+			if mu == "" {
+				mu = "atomic"
+			} else {
+				mu = "atomic+" + mu
+			}
+		}
+		row := fieldRow{fname, f.name, rw, mu, scope}
 		k := row.field + "|" + row.rw + "|" + row.mutex
 		if !seen[k] {
 			seen[k] = true
